@@ -24,7 +24,7 @@ STAGES = {
     "counts": {"counts", "turns", "loops"},
     "flow": {"tunnels", "threads"},
     "functions": {"functions"},
-    "more": {"choice_tags", "typed_vars", "if_diverts", "stitches", "cond_choices", "externals", "label_diverts", "params", "divert_vars", "sugar", "switch", "refs", "choice_divert"},
+    "more": {"choice_tags", "typed_vars", "if_diverts", "stitches", "cond_choices", "externals", "label_diverts", "params", "divert_vars", "sugar", "switch", "refs", "choice_divert", "pure_calls"},
 }
 DEFAULT = set().union(*STAGES.values())
 
